@@ -1059,7 +1059,12 @@ def r12_linear_algebra(ctx):
               "%d facts: product is the outer product, dot the matrix-vector product, transpose swaps the axes" % len(sub.obligations))
 
 
+RULES["R01.4"] += " | entries-stay-in-place (who-may-permute): over every function of the property's modules, no Vec/slice operation that moves entries to other positions (reverse, swap, rotate, sort .., mem::swap of two entries) outside the table of sites confirmed on the pinned tree (common.PERMUTING_SITES)"
+
+
 def run(ctx):
+    from .common import no_permuting_ops
+    ctx.guard("R01.4", "entries-stay-in-place", no_permuting_ops, ctx, "R01.4", "layers-backward", {"src/dense.rs", "src/convolution.rs", "src/deconvolution.rs", "src/maxpool.rs"}, 6, None, lambda p_, l_: "backward" in l_ or "gradient" in l_ or l_ == "rotate")
     ctx.guard("R01.12", "linear-algebra", r12_linear_algebra, ctx)
     ctx.guard("R01.3", "kernel-helpers", r3_kernel_helpers, ctx)
     ctx.guard("R01.11", "activation-derivatives", r11_activation_derivatives, ctx)
